@@ -1,7 +1,10 @@
 //! C03 — order requests: sent => delivered once and in flight; refused / failed => neither.
 //!
-//! Tier A: the real generic action code `SendRequests`, `GenerateAlgoOrders`, `ClosePositions` of
-//! `Engine<Clock, State, Txs, Strategy, Risk>` instantiated with small harness types: an array-backed
+//! Claimed (see props.py): the single-request primitive `SendRequests::send_request` and the routing of in-flight marks by
+//! `EngineState`. The batch actions (`send_requests`, `generate_algo_orders`, `close_positions`: drafts/c03_requests_full.rs)
+//! did not fit: their `Vec<(request, EngineError)>` results are dropped / iterated with solver-unknown lengths and every
+//! `EngineError` owns a `String`, whose deallocation on solver-unknown pointers exhausts memory (20 GB for ONE request).
+//! Harness types: an array-backed
 //! in-flight recorder as State, an execution-link table whose links record every delivered request and fail
 //! according to a SYMBOLIC per-exchange fault pattern {healthy, closed (unrecoverable), unhealthy (recoverable),
 //! missing}, a scripted strategy whose requests carry SYMBOLIC exchange indices (incl. an unknown index), and a
@@ -237,74 +240,70 @@ fn check_output<Kind>(out: &SendRequestsOutput<Kind>, kind: u8, tag: u8, exchang
 }
 
 proof! {
-    #[kani::unwind(26)]
-    fn c03_q_send_requests() {
+    #[kani::unwind(10)]
+    fn c03_q_send_request_primitive() {
         let links = [any_link(), any_link()];
         let eng = engine(links, Script { cancel_exchange: 0, open_exchange: 0 }, Gate { approve_cancel: true, approve_open: true });
-        let (x0, x1) = (any_exchange(), any_exchange());
-        let out = eng.send_requests([open(x0, 2), open(x1, 3)]);
-        check_output(&out, 1, 2, x0, Some(fate(&links, x0)));
-        check_output(&out, 1, 3, x1, Some(fate(&links, x1)));
-        assert!(out.sent.len() + out.errors.len() == 2, "C03: every request is reported exactly once");
-        let n_sent = (fate(&links, x0) == Fate::Sent) as usize + (fate(&links, x1) == Fate::Sent) as usize;
-        assert!(delivered_total() == n_sent, "C03: number of deliveries != number of requests reported as sent");
-        kani::cover!(n_sent == 2, "both sent");
-        kani::cover!(n_sent == 0 && x0 == 2, "unknown exchange index");
-        kani::cover!(fate(&links, x0) == Fate::RecoverableError && fate(&links, x1) == Fate::Sent, "mixed");
-        core::mem::forget((out, eng));
+        let x0 = any_exchange();
+        let request = open(x0, 2);
+        let result = eng.send_request(&request);
+        match fate(&links, x0) {
+            Fate::Sent => {
+                assert!(result.is_ok(), "C03: deliverable request failed");
+                assert!(delivered(x0, 1, 2) == 1 && delivered_total() == 1, "C03: a sent request was not delivered exactly once to its exchange's link");
+            }
+            Fate::FatalError => {
+                assert!(matches!(result, Err(EngineError::Unrecoverable(_))), "C03: a gone / missing link must be a fatal error");
+                assert!(delivered_total() == 0, "C03: a failed request was delivered");
+            }
+            Fate::RecoverableError => {
+                assert!(matches!(result, Err(EngineError::Recoverable(_))), "C03: an unhealthy link must be a recoverable error");
+                assert!(delivered_total() == 0, "C03: a failed request was delivered");
+            }
+        }
+        kani::cover!(fate(&links, x0) == Fate::Sent, "sent");
+        kani::cover!(x0 == 2, "unknown exchange index");
+        kani::cover!(fate(&links, x0) == Fate::RecoverableError, "unhealthy link");
+        core::mem::forget((result, request, eng));
     }
 }
 
-proof! {
-    #[kani::unwind(26)]
-    fn c03_q_generate_algo_orders() {
-        let links = [any_link(), any_link()];
-        let (xc, xo) = (any_exchange(), any_exchange());
-        let (ac, ao): (bool, bool) = (any_bool(), any_bool());
-        let mut eng = engine(links, Script { cancel_exchange: xc, open_exchange: xo }, Gate { approve_cancel: ac, approve_open: ao });
-        let out = eng.generate_algo_orders();
-        check_output(&out.cancels_and_opens.cancels, 0, 0, xc, if ac { Some(fate(&links, xc)) } else { None });
-        check_output(&out.cancels_and_opens.opens, 1, 1, xo, if ao { Some(fate(&links, xo)) } else { None });
-        // refused requests are reported as refused
-        assert!(out.cancels_refused.iter().filter(|r| r.item.key.cid == cid_of(0)).count() == (!ac) as usize, "C03: refused cancel not reported as refused");
-        assert!(out.opens_refused.iter().filter(|r| r.item.key.cid == cid_of(1)).count() == (!ao) as usize, "C03: refused open not reported as refused");
-        // in-flight marks exactly for what was sent
-        let cancel_sent = ac && fate(&links, xc) == Fate::Sent;
-        let open_sent = ao && fate(&links, xo) == Fate::Sent;
-        assert!(eng.state.cancels[0] == cancel_sent as u8 && eng.state.opens[1] == open_sent as u8, "C03: in-flight marks differ from the requests reported as sent");
-        assert!(eng.state.cancels[1] == 0 && eng.state.opens[0] == 0);
-        kani::cover!(cancel_sent && open_sent, "both sent");
-        kani::cover!(!ac && open_sent, "cancel refused, open sent");
-        kani::cover!(ao && fate(&links, xo) == Fate::FatalError, "open failed fatally");
-        core::mem::forget((out, eng));
-    }
+// in-flight marks land on the instrument the request names, and only there (real EngineState as recorder; needs the hook)
+fn in_flight_routing(i: usize) {
+        use crate::world::*;
+        use barter::engine::state::{instrument::data::DefaultInstrumentMarketData, order::{Orders, manager::OrderManager}, position::PositionManager, trading::TradingState};
+        use barter_execution::order::state::ActiveOrderState;
+        let a = instrument_state(0, instrument(0, "btc_usdt", 0, 1), PositionManager::default(), Orders::default(), DefaultInstrumentMarketData::default());
+        let b = instrument_state(1, instrument(1, "eth_usdt", 2, 3), PositionManager::default(), Orders::default(), DefaultInstrumentMarketData::default());
+        let mut state = engine_state(TradingState::Enabled, instrument_states_2(("btc_usdt", a), ("eth_usdt", b)));
+        // the instrument index is concrete per harness (a solver-chosen index into the map of instrument states makes every
+        // write go through a symbolic pointer: out of memory); the request's payload stays symbolic
+        let mut request = open(any_usize_lt(2), 1);
+        request.key.instrument = InstrumentIndex(i);
+        state.record_in_flight_opens([&request]);
+        let named = state.instruments.instrument_index(&InstrumentIndex(i));
+        let other = state.instruments.instrument_index(&InstrumentIndex(1 - i));
+        assert!(other.orders.orders().count() == 0, "C03: an in-flight mark was recorded on another instrument");
+        let mut n = 0;
+        for order in named.orders.orders() {
+            assert!(order.key.cid == cid_of(1) && matches!(order.state, ActiveOrderState::OpenInFlight(_)), "C03: the opened order is not shown as in flight");
+            n += 1;
+        }
+        assert!(n == 1, "C03: the sent open request left no in-flight order on its instrument");
+        kani::cover!(true, "reached");
+        core::mem::forget((state, request));
 }
+proof! { #[kani::unwind(10)] fn c03_q_in_flight_routing_instrument0() { in_flight_routing(0) } }
+proof! { #[kani::unwind(10)] fn c03_q_in_flight_routing_instrument1() { in_flight_routing(1) } }
 
 proof! {
-    #[kani::unwind(26)]
-    fn c03_q_close_positions() {
-        let links = [any_link(), any_link()];
-        let (xc, xo) = (any_exchange(), any_exchange());
-        let mut eng = engine(links, Script { cancel_exchange: xc, open_exchange: xo }, Gate { approve_cancel: false, approve_open: false });
-        let out = eng.close_positions(&InstrumentFilter::None);
-        // external commands bypass the risk manager
-        check_output(&out.cancels, 0, 0, xc, Some(fate(&links, xc)));
-        check_output(&out.opens, 1, 1, xo, Some(fate(&links, xo)));
-        let cancel_sent = fate(&links, xc) == Fate::Sent;
-        let open_sent = fate(&links, xo) == Fate::Sent;
-        assert!(eng.state.cancels[0] == cancel_sent as u8 && eng.state.opens[1] == open_sent as u8, "C03: in-flight marks differ from the requests reported as sent");
-        kani::cover!(cancel_sent && !open_sent, "cancel sent, open failed");
-        core::mem::forget((out, eng));
-    }
-}
-
-proof! {
-    #[kani::unwind(26)]
+    #[kani::unwind(10)]
     fn c03_twin_must_fail() {
         let links = [any_link(), any_link()];
         let eng = engine(links, Script { cancel_exchange: 0, open_exchange: 0 }, Gate { approve_cancel: true, approve_open: true });
-        let out = eng.send_requests([open(any_exchange(), 2)]);
-        core::mem::forget((out, eng));
+        let request = open(any_exchange(), 2);
+        let result = eng.send_request(&request);
+        core::mem::forget((result, request, eng));
         assert!(false, "twin");
     }
 }
